@@ -457,10 +457,16 @@ class BasinProxyFeature(np.lib.mixins.NDArrayOperatorsMixin):
             return self.feat_obj[self.basinmap[index]]
         elif not self.is_scalar:
             # image, mask, etc
-            if isinstance(index, slice) and index == slice(None):
+            if isinstance(index, numbers.Integral):
+                return self.feat_obj[self.basinmap[index]]
+            elif isinstance(index, slice) and index == slice(None):
                 indices = self.basinmap
             else:
                 indices = self.basinmap[index]
+            if np.any(np.isnan(np.array(self.feat_obj.shape[1:],
+                                        dtype=float))):
+                # ragged data (e.g. contour): return a list of events
+                return [self.feat_obj[idx] for idx in indices]
             out_arr = np.empty((len(indices),) + self.feat_obj.shape[1:],
                                dtype=self.feat_obj.dtype)
             for ii, idx in enumerate(indices):
